@@ -1177,6 +1177,9 @@ RESERVED_WORDS = {
     "schema",
     "securityaudit",
     "select",
+    "semantickeyphrasetable",
+    "semanticsimilaritydetailstable",
+    "semanticsimilaritytable",
     "session_user",
     "set",
     "setuser",
@@ -1194,6 +1197,7 @@ RESERVED_WORDS = {
     "transaction",
     "trigger",
     "truncate",
+    "try_convert",
     "tsequal",
     "union",
     "unique",
